@@ -682,7 +682,14 @@ def rule_empty_element_index(ctx: Ctx, rep: Report) -> None:
     rep.floor(rule, 2)
 
 
+def rule_sticky_flags_(ctx: Ctx, rep: Report) -> None:
+    """C19.sticky_flags: a flag raised inside a loop and read after it is accumulated, not overwritten (see sigcommon.rule_sticky_flags)."""
+    from rules.sigcommon import rule_sticky_flags
+    rule_sticky_flags(ctx, rep, "C19.sticky_flags", ('btclib.',))
+
+
 RULES = [
+    ("C19.sticky_flags", rule_sticky_flags_),
     ("C19.empty_element_index", rule_empty_element_index),
     ("C19.loose_to_strict", rule_loose_to_strict_),
     ("C19.coercion_used", rule_coercion_used_),
